@@ -221,11 +221,38 @@ def _present_count(a):
     return a.n
 
 
+def _concrete_values(a):
+    """list of (nan, val) when the array is fully concrete, else None"""
+    n = alg.as_concrete(a.n)
+    if n is None:
+        return None
+    out = []
+    for i in range(n):
+        nan, v = a.elem(i)
+        nan = alg.as_concrete(nan) if alg.is_sym(nan) else nan
+        v = alg.as_concrete(v) if alg.is_sym(v) else v
+        if nan is None or v is None:
+            return None
+        out.append((nan, v))
+    return out
+
+
+def _fr(x):
+    from fractions import Fraction
+
+    return Fraction(x)
+
+
 def np_mean(a):
     """np.mean of a plain ndarray: uninterpreted real (NaN for an empty array or NaN element)"""
     if isinstance(a, MArr):
         raise Unsupported("np.mean of masked array")
     a = M._as_arr(a, copy=False)
+    cv = _concrete_values(a)
+    if cv is not None:
+        if not cv or any(p[0] for p in cv):
+            return SNum(0, True, "f")
+        return SNum(alg.conc(sum(_fr(p[1]) for p in cv) / len(cv)), False, "f")
     c = cur()
     c.use("numpy.mean")
     v = c.fresh("mean", z3.RealSort())
@@ -246,6 +273,15 @@ def np_median(a):
     a = M._as_arr(a, copy=False) if not isinstance(a, MArr) else a
     if isinstance(a, MArr):
         raise Unsupported("np.median of masked array")
+    cv = _concrete_values(a)
+    if cv is not None:
+        if not cv or any(p[0] for p in cv):
+            return SNum(0, True, a.kind, a.unit)
+        vs = sorted(_fr(p[1]) for p in cv)
+        m = vs[len(vs) // 2] if len(vs) % 2 else (vs[len(vs) // 2 - 1] + vs[len(vs) // 2]) / 2
+        if a.kind in ("m", "M", "i", "u"):
+            m = int(m) if m == int(m) else (m.numerator // m.denominator)  # timedelta mean of two ints truncates
+        return SNum(alg.conc(m), False, a.kind, a.unit)
     c = cur()
     c.use("numpy.median")
     sort = z3.IntSort() if a.kind != "f" else z3.RealSort()
@@ -272,6 +308,9 @@ def _spread(name, a, ddof_note):
     array raises ValueError, std of an empty array is NaN"""
     c = cur()
     c.use("numpy.%s" % name)
+    cv = _concrete_values(a._data if isinstance(a, MArr) else M._as_arr(a, copy=False))
+    if cv is not None:
+        return _concrete_spread(name, a, cv)
     if isinstance(a, MArr):
         cnt = _present_count(a)
         if M._fork(alg.eq(cnt, 0)):
@@ -296,6 +335,33 @@ def _spread(name, a, ddof_note):
     s = SNum(v, nan, "f")
     _stats().append(Stat(name, a.copy(), s, ddof_note))
     return s
+
+
+def _concrete_spread(name, a, cv):
+    import math
+
+    if isinstance(a, MArr):
+        mk = [bool(alg.as_concrete(a.m(i)) if alg.is_sym(a.m(i)) else a.m(i)) for i in range(len(cv))]
+        vals = [p for p, m in zip(cv, mk) if not m]
+        if not vals:
+            if name == "ptp" and not cv:
+                raise ValueError("zero-size array to reduction operation maximum which has no identity")
+            return masked
+    else:
+        vals = cv
+        if name == "ptp" and not cv:
+            raise ValueError("zero-size array to reduction operation maximum which has no identity")
+        if not cv:
+            return SNum(0, True, "f")
+    if any(p[0] for p in vals):
+        return SNum(0, True, "f")
+    xs = [_fr(p[1]) for p in vals]
+    if name == "ptp":
+        return SNum(alg.conc(max(xs) - min(xs)), False, "f")
+    mu = sum(xs) / len(xs)
+    var = sum((x - mu) ** 2 for x in xs) / len(xs)
+    r = math.sqrt(var)
+    return SNum(alg.conc(r), False, "f")
 
 
 def np_std(a, *args, **kw):
@@ -344,6 +410,8 @@ def as_strided(a, shape=None, strides=None):
     def elem(r, cc):
         j = alg.add(r, cc)
         inb = M.in_range(j, n)
+        if inb is False:
+            return (oobn(alg.lift(j)), oob(alg.lift(j)))
         e = g(j)
         # out-of-buffer reads see arbitrary memory
         return (alg.ite(inb, e[0], oobn(alg.lift(j))), alg.ite(inb, e[1], oob(alg.lift(j))))
